@@ -101,7 +101,13 @@ func isConstObj(v ssa.Value, obj types.Object) bool {
 	if !ok || k.Value == nil {
 		return false
 	}
-	return k.Value.ExactString() == cst.Val().ExactString() && types.Identical(k.Type(), cst.Type())
+	if k.Value.ExactString() != cst.Val().ExactString() {
+		return false
+	}
+	if b, ok := cst.Type().Underlying().(*types.Basic); ok && b.Info()&types.IsUntyped != 0 {
+		return true // untyped constant: the SSA constant carries the context type
+	}
+	return types.Identical(k.Type(), cst.Type())
 }
 
 // R2: v1 destination confirmation gates.
